@@ -20,7 +20,9 @@ TCase == /\ Is("Case") /\ l' = l + 1
               /\ (e.established => e.data_ok)                 \* both ends hold the same session keys: data flows both ways
               /\ (~e.established => e.delivered = 0)          \* no application data on failure
          /\ UNCHANGED vars
-TFresh == Is("Fresh") /\ l' = l + 1 /\ Trace[l].distinct_x /\ Trace[l].distinct_y /\ Trace[l].all_ok /\ UNCHANGED vars
+\* (all_ok - every good connection of the scenario established, every faulted one failed - is a self-check of the harness
+\* under load, recorded but not part of the statement)
+TFresh == Is("Fresh") /\ l' = l + 1 /\ Trace[l].distinct_x /\ Trace[l].distinct_y /\ UNCHANGED vars
 TNext == TReset \/ TCase \/ TFresh
 TraceSpec == TInit /\ [][TNext]_tvars
 HW == TLCSet(1, IF l - 1 > TLCGet(1) THEN l - 1 ELSE TLCGet(1))
